@@ -79,6 +79,20 @@ CHECKS["C10"] = dict(
           "temperature bound is the induction of the two proved lemmas over the flow DAG (paper argument)."),
     ref="DESIGN.md section 4 C10")
 
+CHECKS["C11"] = dict(
+    engine="E2",
+    technique="contract-based deductive verification: VCs from the AST of the HeatConsumer/HeatExchanger/CirculationPump classmethods (row-generic over the component's pit block), algebraic lemmas over the thermal residual spec, discharged by z3",
+    text=("For every consumer row the mode code is proved to follow the given pair of inputs, each adaption method is proved to "
+          "write exactly the per-mode pit entries (identity mass-flow row, QE_TR residual -q + cp (T_in - T_out) m and its derivative, "
+          "q := cp m dT / cp m (T_in - T_ret), m := q/(cp dT), outlet-temperature identity row) and nothing outside its block; "
+          "reported qext_w/deltat_k are proved to be the pit heat and T_from - T_out; lemmas prove that a zero thermal residual with "
+          "LENGTH=ALPHA=TL=0 means q = |m| c (T_in - T_out) and that every mode's set-points are then met; heat exchanger "
+          "parameters reach the pit unchanged; the circulation pump reports m (cp(T_out) T_out - cp(T_in) T_in)."),
+    note=(TB + "A1/A3; get_component_array / get_branch_cp / get_from_nodes_corrected by contract (the latter two proved in C10); rows of the "
+          "component array are aligned with the component's rows of the active pit (reduce_pit, engine E3). Not decided: the energy "
+          "closure of a circulation-pump loop (whole-network sum with an unspecified discretisation tolerance)."),
+    ref="DESIGN.md section 4 C11")
+
 NOT_APPLICABLE = {
     "C08": "uniqueness of the solution of the nonlinear system within tolerances and convergence of damped Newton in floating point: a whole-history/analytic property, no pre/post contract within reach expresses it (DESIGN.md section 5)",
     "C15": "the save/load round trip is the behaviour of pandapower/pandas/json/pickle/scipy object state; a contract strong enough would have to assume the property (DESIGN.md section 5)",
